@@ -39,7 +39,8 @@ pub fn var_unix(key: &UnixStr) -> Result<&'static UnixStr, VarError> {
                 return Err(VarError::Missing);
             }
             let match_up_to = key.match_up_to(UnixStr::from_ptr(var_ptr));
-            if match_up_to != 0 {
+            // The whole key has to match, not just a prefix of it (`key.len()` counts the null byte)
+            if match_up_to != 0 && match_up_to + 1 == key.len() {
                 // Next is '='
                 if var_ptr.add(match_up_to).read() == b'=' {
                     // # Safety
@@ -68,7 +69,8 @@ pub fn var(key: &str) -> Result<&'static str, VarError> {
                 return Err(VarError::Missing);
             }
             let match_up_to = UnixStr::from_ptr(var_ptr).match_up_to_str(key);
-            if match_up_to != 0 {
+            // The whole key has to match, not just a prefix of it
+            if match_up_to != 0 && match_up_to == key.len() {
                 // Next is '='
                 if var_ptr.add(match_up_to).read() == b'=' {
                     let value_len = strlen(var_ptr.add(match_up_to + 1));
